@@ -56,5 +56,74 @@ impl<'a> StateMachine<'a> {
     //@|     final(self).line == old(self).line && final(self).config == old(self).config,
 }
 
+// ---------------------------------------------------------------- handlers/git_show_file.rs
+#[verifier::external_body]
+pub struct CommandLine { _p: u8 }
+//@ type src/utils/process.rs CallingProcess noderive
+pub mod process { pub use crate::CallingProcess; }
+/// the process that called delta (U16 has the mechanism under contract); a fixed fact of the run
+pub uninterp spec fn the_calling_process() -> CallingProcess;
+/// (R3) `&*process::calling_process()` (a MutexGuard)
+#[verifier::external_body]
+pub fn verif_calling_process() -> (r: CallingProcess) ensures r == the_calling_process() { unimplemented!() }
+//@ type src/paint.rs BgFillMethod derives=Clone,Copy,PartialEq,Eq,Structural
+//@ type src/paint.rs BgShouldFill derives=Clone,Copy,PartialEq,Eq,Structural
+impl Default for BgShouldFill {
+    #[verifier::external_body]
+    fn default() -> (r: Self) { unimplemented!() }
+}
+pub type LineSections<'a, S> = Vec<(S, &'a str)>;
+//@ type src/paint.rs StyleSectionSpecifier noderive
+/// the line with its tabs expanded to the configured width (the configuration is fixed for the run); uninterpreted
+pub uninterp spec fn tabs_expanded(line: Seq<char>) -> Seq<char>;
+/// ghost: the language in effect was looked up for this file name (None: for no particular file)
+impl<'p> Painter<'p> {
+    pub uninterp spec fn language_of(&self) -> Option<Seq<char>>;
+    #[verifier::external_body]
+    pub fn set_syntax(&mut self, filename: Option<&str>)
+        ensures final(self).language_of() == (match filename { Some(f) => Some(f@), None => None }),
+                (final(self).line_numbers_data is Some) == (old(self).line_numbers_data is Some),
+                final(self).minus_lines == old(self).minus_lines && final(self).plus_lines == old(self).plus_lines,
+                final(self).output_buffer == old(self).output_buffer && final(self).writer.hist() == old(self).writer.hist(),
+    { unimplemented!() }
+    #[verifier::external_body]
+    pub fn set_highlighter(&mut self)
+        ensures final(self).language_of() == old(self).language_of(),
+                (final(self).line_numbers_data is Some) == (old(self).line_numbers_data is Some),
+                final(self).minus_lines == old(self).minus_lines && final(self).plus_lines == old(self).plus_lines,
+                final(self).output_buffer == old(self).output_buffer && final(self).writer.hist() == old(self).writer.hist(),
+    { unimplemented!() }
+    /// ASSUMED (paint.rs; its parts - tabs::expand, the syntax sections, paint_lines' tail - are under contract in U28, U23, U18, U41):
+    /// the line is rendered once, after what the output buffer holds
+    #[verifier::external_body]
+    pub fn syntax_highlight_and_paint_line(&mut self, line: &str, style_sections: StyleSectionSpecifier, state: State, background_color_extends_to_terminal_width: BgShouldFill)
+        ensures final(self).language_of() == old(self).language_of(),
+                (final(self).line_numbers_data is Some) == (old(self).line_numbers_data is Some),
+                final(self).minus_lines == old(self).minus_lines && final(self).plus_lines == old(self).plus_lines,
+                final(self).writer.hist() == old(self).writer.hist(),
+                lines_of(final(self).output_buffer@) == lines_of(old(self).output_buffer@).push(tabs_expanded(line@)),
+    { unimplemented!() }
+}
+/// `git show rev:path`: the file named on the command line, if delta was called that way
+pub open spec fn git_show_file() -> Option<Seq<char>> {
+    match the_calling_process() { CallingProcess::GitShow(_, Some(f)) => Some(f@), _ => None }
+}
+pub open spec fn git_show_claims(sm: &StateMachine) -> bool {
+    sm.state is GitShowFile || (sm.state is Unknown && git_show_file() is Some)
+}
+impl<'a> StateMachine<'a> {
+    //@ fn src/handlers/git_show_file.rs StateMachine::handle_git_show_file_line
+    //@| ensures sm_frame(final(self), old(self)),
+    //@|     r.is_ok() ==> r == Ok::<bool, std::io::Error>(git_show_claims(old(self))),  // @C04:a.line.is.taken.for.the.content.of.a.file.only.when.delta.was.called.by.git.show.rev.path
+    //@|     r.is_ok() && !git_show_claims(old(self)) ==> final(self).state == old(self).state && final(self).painter.output_buffer@.len() == 0
+    //@|         && final(self).painter.writer.hist() == old(self).painter.writer.hist().push(Ev::Flush(old(self).painter.output_buffer@)),  // @C04,C11:declining.the.handler.only.writes.out.what.was.already.rendered
+    //@|     r.is_ok() && git_show_claims(old(self)) ==> final(self).state is GitShowFile
+    //@|         && lines_of(final(self).painter.output_buffer@) == lines_of(Seq::<char>::empty()).push(tabs_expanded(old(self).line@)),  // @C04,C01:a.line.of.git.show.rev.path.output.is.rendered.once
+    //@|     r.is_ok() && old(self).state is Unknown && git_show_claims(old(self)) ==> final(self).painter.language_of() == git_show_file(),  // @C15:the.content.of.git.show.rev.path.is.highlighted.in.the.language.of.that.path
+    //@|     r.is_ok() ==> final(self).painter.minus_lines@ == old(self).painter.minus_lines@ && final(self).painter.plus_lines@ == old(self).painter.plus_lines@,
+    //@rewrite <<<&*process::calling_process()>>> => <<<&verif_calling_process()>>>
+    //@after? <<<self.painter.emit()?;>>>| proof { assert(self.painter.output_buffer@ =~= Seq::<char>::empty()); }
+}
+
 } // verus!
 fn main() {}
